@@ -674,3 +674,188 @@ Proof.
         -- rewrite (inw_wclear _ _ _ _ j); auto. rewrite tb_adel_neq; auto.
         -- rewrite tb_adel_neq; auto.
 Qed.
+
+Lemma Inv_release_owner A C T W c i A2 T2 W2 (pw : nat -> bool) :
+  Inv A C T W c -> i < length A -> a_orig (g A i) = true -> a_base (g A i) = None -> cget i C = 1 ->
+  (forall k, pw k = true -> k <> i -> cget k C = 0) ->
+  (forall k, aget k T2 = if Nat.eqb k i || pw k then None else aget k T) ->
+  sbwl A A2 ->
+  a_wr (g A2 i) = true ->
+  (forall j, j <> i -> pw j && tb T j = false -> g A2 j = g A j) ->
+  (forall j, j <> i -> pw j = true -> tb T j = true -> a_alive (g A j) = true -> a_wr (g A2 j) = true) ->
+  (forall v, v <> i -> inw W i v = true -> tb T v = true -> cget v C = 0 -> pw v = true) ->
+  ((forall b v, b <> i -> inw W b v = true -> inw W2 b v = true) \/ (forall k, tb T2 k = false)) ->
+  Inv A2 (adel i C) T2 W2 (upd c i 0).
+Proof.
+  intros HI Hi Ho Hb Hc Hp0 HT2 HS Hwi Hun Hwk Hall HW2.
+  assert (HGA := iGA HI).
+  assert (Htb2 : forall k, tb T2 k = if Nat.eqb k i || pw k then false else tb T k).
+  { intros k. unfold tb. rewrite HT2. destruct (Nat.eqb k i || pw k); auto. }
+  destruct HS as [HL HS].
+  split; rewrite ?HL.
+  - eapply GA_sbwl; eauto. split; auto.
+  - intros k j Hk. rewrite HT2 in Hk. destruct (Nat.eqb k i || pw k); [discriminate|].
+    apply (iGT HI); auto.
+  - apply GC_adel. apply (iGC HI).
+  - intros j Hj. destruct (Nat.eq_dec j i) as [->|Hne].
+    + rewrite upd_eq in Hj. lia.
+    + rewrite upd_neq in Hj; auto. apply (iLt HI); auto.
+  - intros j Hj. destruct (HS j) as (Ek & Eb & Ea & Eo & Eu).
+    destruct (Nat.eq_dec j i) as [->|Hne].
+    + assert (Hti : tb T2 i = false) by (rewrite Htb2, Nat.eqb_refl; reflexivity).
+      split.
+      * rewrite upd_eq. lia.
+      * intros; congruence.
+      * intros _. split; rewrite ?cget_adel_eq, ?upd_eq, ?Eb; auto; intros; try lia; try congruence.
+    + assert (Ei : Nat.eqb j i = false) by (apply Nat.eqb_neq; auto).
+      destruct (pw j && tb T j) eqn:Epw.
+      * apply andb_true_iff in Epw. destruct Epw as [Epj Etj].
+        assert (Hcj : cget j C = 0) by (apply Hp0; auto).
+        destruct (iLoc HI Hj) as [hC hRO hT].
+        assert (Hoj : a_orig (g A j) = true).
+        { destruct (a_orig (g A j)) eqn:E; auto. destruct (hRO eq_refl) as (_ & ? & _). congruence. }
+        specialize (hT Hoj). destruct hT as [a1 a2 a3 a4 a5 a6 a7].
+        assert (Hbj : a_base (g A j) <> None).
+        { intros E. specialize (a5 E Etj). lia. }
+        assert (Htj2 : tb T2 j = false) by (rewrite Htb2, Ei, Epj; reflexivity).
+        split.
+        -- rewrite upd_neq by auto. intros. lia.
+        -- rewrite Eo. intros; congruence.
+        -- intros _. split; rewrite ?cget_adel_neq by auto; rewrite ?upd_neq by auto; rewrite ?Eb, ?Ea, ?Eu;
+             auto; intros; try lia; try congruence; try (apply Hwk; auto).
+      * assert (Eg : g A2 j = g A j) by (apply Hun; auto).
+        assert (Etj : tb T2 j = tb T j).
+        { rewrite Htb2, Ei. simpl. destruct (pw j); simpl in *; auto. }
+        apply Loc_frame with (A := A) (C := C) (T := T) (W := W) (c := c).
+        -- apply (iLoc HI Hj).
+        -- exact Eg.
+        -- apply cget_adel_neq; auto.
+        -- exact Etj.
+        -- apply upd_neq; auto.
+        -- intros b Hoj Hbj Htj Hcj Hw Htb.
+           assert (Epj : pw j = false) by (rewrite Htj, andb_true_r in Epw; auto).
+           destruct (Nat.eq_dec b i) as [->|Hbi].
+           { rewrite (Hall j) in Epj; auto. discriminate. }
+           split.
+           ++ destruct HW2 as [HW2|HW2]; auto. rewrite HW2 in Etj. congruence.
+           ++ rewrite Htb2. apply Nat.eqb_neq in Hbi. rewrite Hbi. simpl.
+              destruct (pw b) eqn:Epb; auto.
+              apply Nat.eqb_neq in Hbi.
+              destruct (gBase HGA _ Hbj) as (Hlt & Hbb & Hob & _).
+              assert (Hbl : b < length A) by lia.
+              destruct (iLoc HI Hbl) as [_ _ hT']. rewrite Hoj in Hob. specialize (hT' Hob).
+              assert (0 < cget b C) by (apply (l4 hT'); auto).
+              rewrite (Hp0 b) in H; auto. lia.
+Qed.
+
+Lemma Inv_release_owner_full A C T W c i :
+  Inv A C T W c -> i < length A -> a_orig (g A i) = true -> a_base (g A i) = None -> cget i C = 1 ->
+  let A1 := upd_arr A i (set_wr true) in
+  let C1 := adel i C in
+  let T1 := adel i T in
+  let W1 := wclear T1 W in
+  match aget i W1 with
+  | Some vs => let '(A2, T2, rest) := wake_views vs A1 C1 T1 [] in
+               Inv A2 C1 T2 (match rest with [] => adel i W1 | _ => aset i rest W1 end) (upd c i 0)
+  | None => Inv A1 C1 T1 W1 (upd c i 0)
+  end.
+Proof.
+  intros HI Hi Ho Hb Hc A1 C1 T1 W1.
+  assert (HS1 : sbwl A A1) by apply sbwl_upd.
+  assert (HT1 : forall k j, aget k T1 = Some j -> j = k).
+  { intros k j Hk. apply (GT_adel _ i _ (iGT HI)) in Hk. tauto. }
+  destruct (aget i W1) as [vs|] eqn:EW.
+  - assert (EW1 : W1 = W).
+    { unfold W1, wclear in *. destruct T1; auto. simpl in EW. discriminate. }
+    destruct (wake_views vs A1 C1 T1 []) as [[A2 T2] rest] eqn:Ewk.
+    destruct (wake_spec _ _ _ _ _ _ _ _ HT1 Ewk) as (Ha & Hb2 & Hc2 & Hd2).
+    apply Inv_release_owner with (A := A) (T := T) (W := W) (pw := pb vs C1); auto.
+    + intros k Hk Hne. unfold pb in Hk. apply andb_true_iff in Hk. destruct Hk as [_ Hk].
+      apply Nat.eqb_eq in Hk. unfold C1 in Hk. rewrite cget_adel_neq in Hk; auto.
+    + intros k. rewrite Hb2. unfold T1. destruct (Nat.eq_dec k i) as [->|Hne].
+      * rewrite Nat.eqb_refl, aget_adel_eq. simpl. destruct (pb vs C1 i); auto.
+      * apply Nat.eqb_neq in Hne. rewrite Hne. simpl. apply Nat.eqb_neq in Hne.
+        rewrite aget_adel_neq; auto.
+    + eapply sbwl_trans; eauto.
+    + rewrite Hc2.
+      * unfold A1. rewrite g_upd_eq; auto.
+      * unfold T1. rewrite tb_adel_eq, andb_false_r. auto.
+    + intros j Hne Hj. rewrite Hc2.
+      * unfold A1. apply g_upd_neq; auto.
+      * unfold T1. rewrite tb_adel_neq; auto.
+    + intros j Hne Hp Ht Hal. apply Hd2; auto.
+      * unfold T1. rewrite tb_adel_neq; auto.
+      * unfold A1. rewrite g_upd_neq; auto.
+    + intros v Hne Hw Ht Hcv. unfold pb. rewrite EW1 in EW. unfold inw in Hw. rewrite EW in Hw.
+      rewrite Hw. unfold C1. rewrite cget_adel_neq, Hcv; auto.
+    + left. intros b v Hne Hw. rewrite EW1. unfold inw in *.
+      destruct rest; [rewrite aget_adel_neq | rewrite aget_aset_neq]; auto.
+  - apply Inv_release_owner with (A := A) (T := T) (W := W) (pw := fun _ => false); auto.
+    + intros; discriminate.
+    + intros k. rewrite orb_false_r. unfold T1. destruct (Nat.eq_dec k i) as [->|Hne].
+      * rewrite Nat.eqb_refl, aget_adel_eq. auto.
+      * rewrite aget_adel_neq; auto. apply Nat.eqb_neq in Hne. rewrite Hne. auto.
+    + unfold A1. rewrite g_upd_eq; auto.
+    + intros j Hne _. unfold A1. apply g_upd_neq; auto.
+    + intros; discriminate.
+    + intros v Hne Hw Ht Hcv. exfalso.
+      assert (Ht1 : tb T1 v = true) by (unfold T1; rewrite tb_adel_neq; auto).
+      unfold W1, wclear in EW. destruct T1 eqn:ET1.
+      * rewrite tb_nil in Ht1. discriminate.
+      * unfold inw in Hw. rewrite EW in Hw. discriminate.
+    + unfold W1, wclear. destruct T1 eqn:ET1.
+      * right. intros k. apply tb_nil.
+      * left. auto.
+Qed.
+
+Lemma release_inv s c i : InvS s c -> 0 < c i -> InvS (release s i) (upd c i (c i - 1)).
+Proof.
+  intros HI Hci.
+  assert (Hi : i < length (arrs s)) by (apply (iLt HI); auto).
+  destruct (iLoc HI Hi) as [hC hRO hT]. specialize (hC Hci).
+  assert (HGA := iGA HI).
+  destruct (a_orig (g (arrs s) i)) eqn:Ho.
+  - specialize (hT eq_refl). destruct hT as [a1 a2 a3 a4 a5 a6 a7].
+    assert (Ht : tb (tracker s) i = true) by (apply a2; lia).
+    assert (Hw : a_wr (g (arrs s) i) = false) by auto.
+    destruct (c i) as [|[|m]] eqn:Ec; [lia| |].
+    + (* last reference *)
+      simpl.
+      destruct (a_base (g (arrs s) i)) as [b|] eqn:Hb.
+      * destruct (a_wr (g (arrs s) b)) eqn:Hwb.
+        -- rewrite (release_eq_untrack_view s i b); auto.
+           unfold InvS, mk; simpl. eapply Inv_release_untrack_view; eauto.
+        -- rewrite (release_eq_wait s i b); auto.
+           unfold InvS, mk; simpl. eapply Inv_release_wait; eauto.
+           ++ unfold inw. rewrite aget_aset_eq. unfold wadd.
+              destruct (existsb (Nat.eqb i) (wcur b (waiting s))) eqn:E; auto.
+              rewrite existsb_app. simpl. rewrite Nat.eqb_refl. rewrite orb_true_r. auto.
+           ++ intros b' v Hin. unfold inw in *. destruct (Nat.eq_dec b' b) as [->|Hne].
+              ** rewrite aget_aset_eq. unfold wadd, wcur.
+                 destruct (aget b (waiting s)) as [l|]; [|discriminate].
+                 destruct (existsb (Nat.eqb i) l); auto. rewrite existsb_app, Hin. auto.
+              ** rewrite aget_aset_neq; auto.
+      * rewrite (release_eq_owner s i); auto.
+        assert (HF := Inv_release_owner_full _ _ _ _ _ i HI Hi Ho Hb a1). cbv zeta in *.
+        destruct (aget i (wclear (adel i (tracker s)) (waiting s))) as [vs|].
+        -- destruct (wake_views vs _ _ _ []) as [[A2 T2] rest]. exact HF.
+        -- exact HF.
+    + rewrite (release_eq_dec s i m); auto.
+      unfold InvS, mk; simpl. replace (S (S m) - 1) with (S m) by lia.
+      apply Inv_release_dec; auto.
+  - destruct (hRO eq_refl) as (Hw & Ht & Hc).
+    rewrite release_eq_noop; auto. apply Inv_c_ro; auto.
+Qed.
+
+Lemma release_ops s i : ops (release s i) = ops s.
+Proof.
+  unfold release. cbv zeta.
+  set (s1 := if Nat.eqb _ 1 then _ else _).
+  assert (H1 : ops s1 = ops s).
+  { unfold s1. destruct (Nat.eqb _ 1).
+    - destruct (a_base (get s i)); auto. destruct (negb _); auto.
+    - destruct (Nat.ltb 0 _); auto. }
+  destruct (a_base (get s1 i)); auto. destruct (a_wr (get s1 i)); auto.
+  destruct (aget _ (waiting s1)); auto.
+  destruct (wake_views _ _ _ _ _) as [[? ?] ?]. simpl. auto.
+Qed.
